@@ -196,13 +196,14 @@ def check_config(run, pkg, fname, ndim, tri, style):
 
 def _other_reads(rr) -> bool:
     """anything besides plain readline() calls that could consume lines of the handle on this path"""
+    counted = set(rr.header_ids) | set(rr.atom_ids)
     for ev in rr.it.events:
         for v in ev.data.values():
             if not isinstance(v, tuple):
                 continue
             for x in walk(v):
-                if x[0] == "comp" and any(y[0] == "call" and y[1] == ".readline" for y in walk(x)):
-                    return True
+                if x[0] == "comp" and any(y[0] == "call" and y[1] == ".readline" and dict(y[3]).get("@", (None, None))[1] not in counted for y in walk(x)):
+                    return True        # a readline evaluated per element of a comprehension (one already counted as a statement-level read merely flows in)
                 if x[0] == "call" and isinstance(x[1], str) and x[1] in (".readlines", ".read", "numpy.loadtxt", "numpy.genfromtxt", "numpy.fromfile", "numpy.fromstring",
                                                                           "itertools.islice", "builtins.next", ".__next__", "pandas.read_csv", "builtins.list", "builtins.iter"):
                     return True
